@@ -125,9 +125,15 @@ mod proofs {
 		z < 32 && b.level as usize == z && b.max == ((1u64 << z) - 1) as u32 && b.x_max <= b.max && b.y_max <= b.max
 	}
 	fn any_pyramid() -> TileBBoxPyramid {
-		let p = TileBBoxPyramid { level_bbox: kani::any() };
+		// every well-formed pyramid: level i has level = i and max = 2^i - 1 (concrete), any corner coordinates with x_max, y_max <= max
+		let mut p = TileBBoxPyramid { level_bbox: from_fn(|i| TileBBox { level: i as u8, max: ((1u64 << i) - 1) as u32, x_min: 0, y_min: 0, x_max: 0, y_max: 0 }) };
 		let mut i = 0;
-		while i < 32 { kani::assume(wf(&p.level_bbox[i], i)); i += 1; }
+		while i < 32 {
+			let b = &mut p.level_bbox[i];
+			b.x_min = kani::any(); b.y_min = kani::any(); b.x_max = kani::any(); b.y_max = kani::any();
+			kani::assume(b.x_max <= b.max && b.y_max <= b.max);
+			i += 1;
+		}
 		p
 	}
 	fn any_wf_bbox() -> TileBBox {
@@ -219,7 +225,7 @@ mod proofs {
 		assert!(wf(&a.level_bbox[z], z));
 	}
 
-	// harness: kind=complete why="32 levels is the constant MAX_ZOOM_LEVEL" tier=thorough props=C15,C03,C08 fn=TileBBoxPyramid::include_bbox_pyramid,TileBBoxPyramid::iter_levels timeout=2400 mem=24
+	// harness: kind=complete why="32 levels is the constant MAX_ZOOM_LEVEL" tier=thorough props=C15,C03,C08 fn=TileBBoxPyramid::include_bbox_pyramid,TileBBoxPyramid::iter_levels timeout=5400 mem=46
 	#[kani::proof]
 	#[kani::unwind(34)]
 	fn pyr_include_bbox_pyramid() {
